@@ -13,9 +13,12 @@ from multiprocessing import Pool
 from .. import env
 from .. import tlc, evidence
 
-OTHER_KEY = {"rsa": "c_rsa", "ecdsa": "c_ecdsa", "dsa": "c_dsa", "ed25519": "c_ed25519", "rsapss": "rsapsssig"}
+OTHER_KEY = {"rsa": "c_rsa", "ecdsa": "c_ecdsa", "dsa": "c_dsa", "ed25519": "c_ed25519", "rsapss": "rsapsssig",
+             "p384": "ecdsa", "p521": "p384", "ed448": "ed25519", "bp256": "ecdsa"}
 OTHER_KEY_FOR_CLIENT = {"rsa": "rsa", "ecdsa": "ecdsa", "dsa": "dsa", "ed25519": "ed25519"}
-SRV_CRED = {"rsa": "rsa", "ecdsa": "ecdsa", "dsa": "dsa", "ed25519": "ed25519", "rsapss": "rsapss"}
+SRV_CRED = {"rsa": "rsa", "ecdsa": "ecdsa", "dsa": "dsa", "ed25519": "ed25519", "rsapss": "rsapss",
+            "p384": "p384", "p521": "p521", "ed448": "ed448", "bp256": "bp256"}
+EXTRA_KT = ("p384", "p521", "ed448", "bp256")
 CLT_CRED = {"rsa": "c_rsa", "ecdsa": "c_ecdsa", "dsa": "c_dsa", "ed25519": "c_ed25519"}
 
 
@@ -26,16 +29,22 @@ def fresh_key(name):
         return parsePEMKey(f.read(), private=True, implementations=["python"])
 
 
-def corrupt_sig(msg, cls):
+def corrupt_sig(msg, cls, var=0):
+    """var selects where / how much: 0 = the default position"""
     sig = bytearray(msg.signature)
-    if cls == "bitflip":
-        sig[len(sig) // 2] ^= 0x01
+    n = len(sig)
+    if cls == "bitflip" and n:
+        pos, mask = [(n // 2, 0x01), (0, 0x80), (n - 1, 0x01), (0, 0x01), (1, 0x40), (n // 3, 0x10), (2 * n // 3, 0x04),
+                     (n - 2, 0x80), (n // 2 + 1, 0xFF), (min(4, n - 1), 0x02)][var % 10]
+        if var >= 10:
+            pos, mask = (var * 7) % n, 1 << (var % 8)
+        sig[pos] ^= mask
     elif cls == "empty":
         sig = bytearray()
     elif cls == "trunc":
-        sig = sig[:-1]
+        sig = sig[:[-1, n // 2, 1, -2][var % 4]]
     elif cls == "extend":
-        sig = sig + bytearray([0])
+        sig = sig + bytearray([[0], [0] * 16, [0xFF], list(sig[:8])][var % 4])
     msg.signature = sig
 
 
@@ -64,6 +73,40 @@ def decl_other(msg):
         msg.hashAlg = HashAlgorithm.sha384 if msg.hashAlg != HashAlgorithm.sha384 else HashAlgorithm.sha256
         return True
     return False
+
+
+DC_FILES = {"rsapss": ("serverDelCredRSAPSSKey.pem", "serverDelCredRSAPSSPub.pem"),
+            "ed25519": ("serverDelCredEd25519Key.pem", "serverDelCredEd25519Pub.pem"),
+            "ecdsa": ("serverDelCredSECP256r1Key.pem", "serverDelCredSECP256r1Pub.pem")}
+
+
+def make_dc(cert_chain, sign_key, cert_alg, dc_kt, valid_time=None):
+    """delegated credential for the key in tests/serverDelCred*: signed by sign_key over (cert, credential)"""
+    import hashlib
+    from ..endpoints import TESTS
+    from tlslite.api import parsePEMKey
+    from tlslite.utils.pem import dePem
+    from tlslite.x509 import DelegatedCredential, Credential
+    from tlslite.constants import SignatureScheme, SignatureAlgorithm, HashAlgorithm
+    from tlslite.handshakesettings import DC_VALID_TIME
+    kf, pf = DC_FILES[dc_kt]
+    dc_key = parsePEMKey(open(os.path.join(TESTS, kf)).read(), private=True, implementations=["python"])
+    dc_pub = dePem(open(os.path.join(TESTS, pf)).read(), "PUBLIC KEY")
+    dc_alg = {"rsapss": SignatureScheme.rsa_pss_pss_sha256, "ed25519": SignatureScheme.ed25519,
+              "ecdsa": SignatureScheme.ecdsa_secp256r1_sha256}[dc_kt]
+    vt = DC_VALID_TIME if valid_time is None else valid_time
+    cred_bytes = Credential.marshal(vt, dc_alg, dc_pub)
+    cr = Credential(valid_time=vt, dc_cert_verify_algorithm=dc_alg, subject_public_key_info=dc_pub, bytes=cred_bytes)
+    to_sign = DelegatedCredential.compute_certificate_dc_sig_context(cert_chain.x509List[0].bytes, cred_bytes, cert_alg)
+    if cert_alg in (SignatureScheme.ed25519, SignatureScheme.ed448):
+        sig = sign_key.hashAndSign(to_sign, None, "intrinsic", None)
+    elif cert_alg[1] == SignatureAlgorithm.ecdsa:
+        sig = sign_key.hashAndSign(to_sign, None, HashAlgorithm.toRepr(cert_alg[0]), None)
+    else:
+        scheme = SignatureScheme.toRepr(cert_alg)
+        hn = SignatureScheme.getHash(scheme)
+        sig = sign_key.hashAndSign(to_sign, SignatureScheme.getPadding(scheme), hn, getattr(hashlib, hn)().digest_size)
+    return dc_key, DelegatedCredential(cred=cr, algorithm=cert_alg, signature=sig)
 
 
 def wrap_otherdata(key):
@@ -112,13 +155,13 @@ def _run_case(idx, c):
     site, cls, kt, ver, role = c["site"], c["cls"], c["kt"], c["ver"], c["role"]
     # ---- flavour
     if site == "ske12":
-        kex = {"rsa": "ecdhe_rsa" if ver > 0 and idx % 2 else "dhe_rsa", "ecdsa": "ecdhe_ecdsa", "dsa": "dhe_dsa"}[kt]
+        kex = {"rsa": "ecdhe_rsa" if ver > 0 and idx % 2 else "dhe_rsa", "dsa": "dhe_dsa"}.get(kt, "ecdhe_ecdsa")
         f = flavour(ver, kex)
     elif site == "cv12":
         kex = "dhe_dsa" if kt == "dsa" else ("ecdhe_rsa" if ver > 0 else "dhe_rsa")
         f = flavour(ver, kex, reqCert="cert", ccred=CLT_CRED[kt])
     elif site == "scv13":
-        f = flavour(4, {"rsa": "tls13", "ecdsa": "tls13_ecdsa", "ed25519": "tls13_ed25519", "rsapss": "tls13_pss"}[kt])
+        f = flavour(4, {"rsa": "tls13", "ed25519": "tls13_ed25519", "rsapss": "tls13_pss"}.get(kt, "tls13_ecdsa"))
     elif site == "ccv13":
         f = flavour(4, "tls13", reqCert="cert", ccred=CLT_CRED[kt])
     elif site in ("phacv", "phafin"):
@@ -129,6 +172,9 @@ def _run_case(idx, c):
         f = flavour(ver, "srp_sha")
     elif site == "binder":
         f = flavour(4, "tls13", resume="psk", tickets13=1)
+    elif site in ("dcsig", "dccv"):
+        # dcsig: kt = type of the certificate key that signs the credential; dccv: kt = type of the delegated key
+        f = flavour(4, {"rsapss": "tls13_pss", "ecdsa": "tls13_ecdsa", "ed25519": "tls13_ed25519"}[kt if site == "dcsig" else "ecdsa"])
     elif site == "checker" and cls == "absent" and role == "c":
         f = flavour(ver, "dh_anon")
     elif site == "checker" and role == "s":
@@ -139,6 +185,9 @@ def _run_case(idx, c):
         # the ticket is made for a client that authenticated with a certificate, under a SHA-256 suite
         f = flavour(4, "tls13", resume="psk", tickets13=1, reqCert="cert")
     sc = Scenario(f, "c05-%d" % idx, cextra=dict(cipherNames=["aes128gcm"]) if (site == "binder" and cls == "stale") else None)
+    if kt in EXTRA_KT and site in ("ske12", "scv13"):
+        sch, sk = cred(SRV_CRED[kt])
+        sc.b["skw"]["certChain"], sc.b["skw"]["privateKey"] = sch, sk
     if site in ("phacv", "phafin"):
         # the client holds a key pair although the server does not ask during the handshake
         cch, ck = cred(CLT_CRED[kt if kt != "-" else "rsa"])
@@ -153,11 +202,12 @@ def _run_case(idx, c):
     prover_kw = b["skw"] if role == "c" else b["ckw"]
     target = {"ske12": HandshakeType.server_key_exchange, "cv12": HandshakeType.certificate_verify,
               "scv13": HandshakeType.certificate_verify, "ccv13": HandshakeType.certificate_verify,
+              "dccv": HandshakeType.certificate_verify,
               "phacv": HandshakeType.certificate_verify, "fin": HandshakeType.finished,
               "phafin": HandshakeType.finished}.get(site)
     state = {"hit": 0, "armed": site not in ("phacv", "phafin")}
     # ---- key-level corruptions
-    if site in ("ske12", "cv12", "scv13", "ccv13", "phacv") and cls in ("otherkey", "otherdata"):
+    if site in ("ske12", "cv12", "scv13", "ccv13", "phacv") and cls in ("otherkey", "otherdata"):  # (dc sites: below)
         if cls == "otherkey":
             name = OTHER_KEY[kt] if role == "c" else OTHER_KEY_FOR_CLIENT[kt]
             key = fresh_key(name)
@@ -166,6 +216,41 @@ def _run_case(idx, c):
             wrap_otherdata(key)
         prover_kw["privateKey"] = key
         state["hit"] = 1            # the corruption is in place by configuration
+    if site in ("dcsig", "dccv"):
+        from tlslite.constants import SignatureScheme
+        dc_algs = [SignatureScheme.rsa_pss_pss_sha256, SignatureScheme.ed25519, SignatureScheme.ecdsa_secp256r1_sha256,
+                   SignatureScheme.ecdsa_secp384r1_sha384]
+        cert_kt = kt if site == "dcsig" else "ecdsa"
+        dc_kt = "ecdsa" if site == "dcsig" else kt
+        cert_alg = {"rsapss": SignatureScheme.rsa_pss_pss_sha256, "ecdsa": SignatureScheme.ecdsa_secp256r1_sha256,
+                    "ed25519": SignatureScheme.ed25519}[cert_kt]
+        sign_key = b["skw"]["privateKey"]
+        sign_chain = b["skw"]["certChain"]
+        sign_alg = cert_alg
+        if site == "dcsig" and cls == "otherkey":
+            sign_key = fresh_key(OTHER_KEY[kt])          # the credential is signed by a key that is not the certificate's
+        if site == "dcsig" and cls == "otherdata":
+            sign_chain = cred(OTHER_KEY[kt])[0]          # ... or over another certificate
+        dc_key, dc = make_dc(sign_chain, sign_key, sign_alg, dc_kt)
+        if site == "dcsig":
+            if cls in ("bitflip", "empty", "trunc", "extend"):
+                corrupt_sig(dc, cls, c.get("var", 0))
+            elif cls == "declother":
+                dc.algorithm = {SignatureScheme.rsa_pss_pss_sha256: SignatureScheme.rsa_pss_pss_sha384,
+                                SignatureScheme.ecdsa_secp256r1_sha256: SignatureScheme.ecdsa_secp384r1_sha384}.get(cert_alg, cert_alg)
+            if cls != "none":
+                state["hit"] = 1
+        if site == "dccv" and cls == "otherkey":
+            # CertificateVerify made with a key that is not the delegated one
+            dc_key = fresh_key({"rsapss": "rsapsssig", "ecdsa": "c_ecdsa", "ed25519": "c_ed25519"}[kt])
+            state["hit"] = 1
+        if site == "dccv" and cls == "otherdata":
+            wrap_otherdata(dc_key)
+            state["hit"] = 1
+        b["skw"]["privateKey"] = None
+        b["skw"]["dc_key"] = dc_key
+        b["skw"]["del_cred"] = dc
+        b["ckw"]["settings"].dc_sig_algs = dc_algs
     if site == "srp" and cls == "wrongsecret":
         b["ckw"]["password"] = bytearray(b"not-the-password")
         state["hit"] = 1
@@ -229,7 +314,7 @@ def _run_case(idx, c):
             msg.verify_data = vd
             state["hit"] += 1
         elif cls in ("bitflip", "empty", "trunc", "extend") and hasattr(msg, "signature"):
-            corrupt_sig(msg, cls)
+            corrupt_sig(msg, cls, c.get("var", 0))
             state["hit"] += 1
         elif cls == "declother":
             if decl_other(msg):
@@ -280,6 +365,9 @@ def _run_case(idx, c):
         completed = recorded     # a rejected binder must not resume (a failed handshake is also a rejection)
     elif site in ("fin", "checker"):
         recorded = bool(completed)
+    elif site in ("dcsig", "dccv"):
+        recorded = bool(completed and sess is not None and sess.serverCertChain is not None
+                        and getattr(sess, "delegated_credential", None) is not None)
     elif role == "c":
         recorded = bool(completed and sess is not None and sess.serverCertChain is not None)
     else:
@@ -303,7 +391,16 @@ def run(tier):
     rep.trusted = ["TLC 1.8", "puppet prover (message mutation before hashing)"]
     r = tlc.run("AuthProof.tla", "cfg/AuthProof_mc.cfg", os.path.join(rep.outdir, "mc"), workers=1, timeout=600)
     rep.require_tlc_ok(r, "AuthProof.tla: IdentityOnlyAfterProof over all meaningful cases")
-    cases = r.json
+    base = r.json
+    cases = []
+    for c in base:
+        nvar = 1
+        if c["cls"] == "bitflip":
+            nvar = 3 if tier == "quick" else 40
+        elif c["cls"] in ("trunc", "extend"):
+            nvar = 2 if tier == "quick" else 4
+        for v in range(nvar):
+            cases.append(dict(c, var=v))
     with Pool(16) as pool:
         outs = pool.map(run_case, list(enumerate(cases)), chunksize=4)
     traces, metas = [], []
@@ -323,11 +420,11 @@ def run(tier):
     for i, (t, o) in enumerate(zip(traces, metas)):
         c, res = t[0], t[1]
         hit = res["hit"] > 0 or c["cls"] == "none"
-        rep.case(json.dumps({k: c[k] for k in ("site", "cls", "kt", "ver", "role")}), hit)
+        rep.case(json.dumps({k: c[k] for k in ("site", "cls", "kt", "ver", "role", "var")}), hit)
         if not hit:
             nohit.append("%s/%s/%s/%s" % (c["site"], c["cls"], c["kt"], c["ver"]))
         if i in rejected:
-            rep.violation({"site": c["site"], "class": c["cls"], "kt": c["kt"], "ver": c["ver"], "role": c["role"],
+            rep.violation({"site": c["site"], "class": c["cls"], "kt": c["kt"], "ver": c["ver"], "role": c["role"], "var": c.get("var", 0),
                            "observed": "completed=%s recorded=%s eut=%s peer=%s pha=%s hit=%s" % (
                                res["completed"], res["recorded"], res["eut"], res["peer"], res["pha"], res["hit"])},
                           {"case": c, "res": res, "flavour": o["flavour"]})
